@@ -158,6 +158,7 @@ func (p Plan) Validate(ctx context.Context, n int, pb ProgressBar) (err error) {
 		})
 	}
 
+	var interrupted bool
 loop:
 	for _, s := range p {
 		if !s.isFileSeed() {
@@ -166,11 +167,20 @@ loop:
 		}
 		select {
 		case <-ctx.Done():
+			interrupted = true
 			break loop
 		case in <- Job{s, fileMap[s.source.FileName()]}:
 		}
 	}
 	close(in)
 
-	return g.Wait()
+	if err := g.Wait(); err != nil {
+		return err
+	}
+	// The feeder above stopped early so not all the work has been done. This
+	// must not be reported as success.
+	if interrupted {
+		return Interrupted{}
+	}
+	return nil
 }
